@@ -1659,3 +1659,15 @@ def run(ctx):
 #   H9  HTTP-date form of Retry-After honoured on rate-limit failures                   caught  delay/above-maximum/server-hint
 #   H10 a retry_after attribute of the exception honoured                               caught  delay/above-maximum/server-hint
 #   H11 X-RateLimit-Reset-After honoured when X-RateLimit-Remaining is 0 (<= 300 s)     caught  delay/above-maximum/server-hint
+#
+# Caller-parameters clause (added 2026-09-22 after seeded/C21-agent11 was missed: sleep_before_try / sync_sleep_before_try were only ever called with the defaults -- by the
+# retry loops and by the old delay phase -- and delay_ms_for_try only positionally over a 4 x 4 grid).  Phase param, keys delay/<...>/caller-parameters,
+# delay/not-exactly-one-sleep.  Scratch worktree, quick tier, seed 0, one edit at a time; unchanged tree silent: quick seeds 0..4, thorough seed 0.
+#   seeded/C21-agent11  sleep_before_try passes DEFAULT_MAX_DELAY_MS instead of the caller's max_delay_ms   caught  delay/above-maximum/caller-parameters (max < default),
+#                                                                                                            delay/below-jitter-floor/caller-parameters (max > default)
+#   seeded/C21-agent2, -agent4, -agent6, -agent8, -agent10                                                   still caught (same keys as before; agent6 also
+#                                                                                                            delay/below-jitter-floor/caller-parameters)
+#   P1  sync_sleep_before_try drops the caller's base delay                  caught  delay/above-jitter-ceiling/caller-parameters, delay/below-jitter-floor/caller-parameters
+#   P2  sleep_before_try passes base and max in the wrong order              caught  delay/above-maximum/caller-parameters, delay/below-jitter-floor[/caller-parameters]
+#   P3  delay_ms_for_try caps at max(max_delay_ms, default)                  caught  delay/above-maximum[/caller-parameters]
+#   P4  sleep_before_try sleeps a second time (base delay) after the wait    caught  delay/not-exactly-one-sleep, delay/outside-jitter-bounds
